@@ -678,7 +678,7 @@ func CellBytes(data []byte, pos int, typ byte, metadata uint16, isUnSignedInt bo
 			if flag { //当txt有正整数写入
 				fmt.Fprintf(txt, "%09d", val)
 			} else if val > 0 { //当txt无正整数且val>0时 才能写入
-				fmt.Fprintf(txt, "%9d", val)
+				fmt.Fprintf(txt, "%d", val)
 				flag = true
 			}
 			pos += 4
